@@ -1036,7 +1036,24 @@ fn do_send(w: &mut World, st: &mut St, n: usize, si: usize, tape: &mut Tape) -> 
                 3 | 4 => 7100 + peer as u16,
                 _ => 9999, // nobody listens: the peer answers with port unreachable
             };
-            let payload = expected_payload(s.key, seq, size);
+            let mut payload = expected_payload(s.key, seq, size);
+            // now and then the last two payload octets are chosen so that the UDP checksum of the datagram computes to
+            // zero - which has to go on the wire as 0xffff (zero means "no checksum" over IPv4 and is illegal over IPv6)
+            if size >= 2 && size % 2 == 0 && tape.draw(12) == 0 {
+                let k = payload.len();
+                payload[k - 2] = 0;
+                payload[k - 1] = 0;
+                let mut v = Vec::with_capacity(8 + k);
+                v.extend_from_slice(&s.port.to_be_bytes());
+                v.extend_from_slice(&dport.to_be_bytes());
+                v.extend_from_slice(&((8 + k) as u16).to_be_bytes());
+                v.extend_from_slice(&[0, 0]);
+                v.extend_from_slice(&payload);
+                let c = inet_csum(&v, pseudo(&st.addrs[n], &dst, P_UDP, v.len()));
+                payload[k - 2] = (c >> 8) as u8;
+                payload[k - 1] = c as u8;
+                w.stats.inc("dgram.send-with-checksum-computing-to-zero");
+            }
             let so = w.nodes[n].sockets.get_mut::<udp::Socket>(s.h);
             let ep = IpEndpoint { addr: to_smol(&dst), port: dport };
             let q_before = so.send_queue();
